@@ -215,6 +215,44 @@ def enumAll : List UInt8 → Option (List (Nat × Nat))
             if b4 = 0 then some [(0, 3)]
             else (enumAll u4).map ((code4 b.toNat b2.toNat b3.toNat b4.toNat, 4) :: ·)
 
+/-- the same enumeration, keeping for every step the `n` bytes `e.u[0..n)` the enumerator stands on
+    (what the case functions copy through and `equalsNocase` compares when the code is 0) -/
+def enumRaw : List UInt8 → Option (List (Nat × List UInt8))
+  | [] => none
+  | b :: u =>
+    if b = 0 then some []
+    else if is1 b.toNat then (enumRaw u).map ((b.toNat, [b]) :: ·)
+    else if is2 b.toNat then
+      match u with
+      | [] => none
+      | b2 :: u2 =>
+        if b2 = 0 then some [(0, [b])]
+        else (enumRaw u2).map ((code2 b.toNat b2.toNat, [b, b2]) :: ·)
+    else if is3 b.toNat then
+      match u with
+      | [] => none
+      | b2 :: u2 =>
+        if b2 = 0 then some [(0, [b])] else
+        match u2 with
+        | [] => none
+        | b3 :: u3 =>
+          if b3 = 0 then some [(0, [b, b2])]
+          else (enumRaw u3).map ((code3 b.toNat b2.toNat b3.toNat, [b, b2, b3]) :: ·)
+    else
+      match u with
+      | [] => none
+      | b2 :: u2 =>
+        if b2 = 0 then some [(0, [b])] else
+        match u2 with
+        | [] => none
+        | b3 :: u3 =>
+          if b3 = 0 then some [(0, [b, b2])] else
+          match u3 with
+          | [] => none
+          | b4 :: u4 =>
+            if b4 = 0 then some [(0, [b, b2, b3])]
+            else (enumRaw u4).map ((code4 b.toNat b2.toNat b3.toNat b4.toNat, [b, b2, b3, b4]) :: ·)
+
 /-! ## `String::count()` (:577) -/
 
 def countFrom : List UInt8 → Option Nat
@@ -321,26 +359,37 @@ def reencode (code : Nat) : List UInt8 :=
 def mapCode (tbl : Array UInt8) (cut : Nat) (code : Nat) : List UInt8 :=
   if code < cut then tableBytes tbl code else reencode code
 
+/-- one step of the mapping loops: `if (code == 0)` the `e.n` source bytes are copied through
+    (an undecodable sequence: truncated by the terminator, or an encoding of NUL), otherwise table / re-encoding -/
+def mapGroup (tbl : Array UInt8) (cut : Nat) (g : Nat × List UInt8) : List UInt8 :=
+  if g.1 = 0 then g.2 else mapCode tbl cut g.1
+
 def caseMap (tbl : Array UInt8) (cut : Nat) (s : List UInt8) : Option (List UInt8) :=
-  (enumAll (mem s)).map fun cs => cs.flatMap fun cn => mapCode tbl cut cn.1
+  (enumRaw (mem s)).map fun gs => gs.flatMap (mapGroup tbl cut)
 
 def toUpperCase (s : List UInt8) : Option (List UInt8) := caseMap toUppercaseU8 upperCut s
 def toLowerCase (s : List UInt8) : Option (List UInt8) := caseMap toLowercaseU8 lowerCut s
 
-/-- one step of the comparison loop of `equalsNocase` -/
+/-- the table / code comparison of `equalsNocase` for two decodable code points -/
 def nocaseStep (code1 code2 : Nat) : Bool :=
   if code1 > nocaseCut1 ∨ code2 > nocaseCut2 then code1 == code2
   else toLowercaseU8.getD (code1 * 2) 0 == toLowercaseU8.getD (code2 * 2) 0
     && toLowercaseU8.getD (code1 * 2 + 1) 0 == toLowercaseU8.getD (code2 * 2 + 1) 0
 
+/-- one step of the comparison loop: `if (code1 == 0 || code2 == 0)` the bytes are compared as they are
+    (`code1 != code2 || e1.n != e2.n || memcmp(e1.u, e2.u, e1.n)` ⇒ false) -/
+def nocaseStepG (g1 g2 : Nat × List UInt8) : Bool :=
+  if g1.1 = 0 ∨ g2.1 = 0 then g1.1 == g2.1 && g1.2 == g2.2
+  else nocaseStep g1.1 g2.1
+
 /-- lock-step walk; afterwards `(e1 && !e2) || (!e1 && e2)` ⇒ false -/
-def nocaseLoop : List (Nat × Nat) → List (Nat × Nat) → Bool
-  | a :: as, b :: bs => if nocaseStep a.1 b.1 then nocaseLoop as bs else false
+def nocaseLoop : List (Nat × List UInt8) → List (Nat × List UInt8) → Bool
+  | a :: as, b :: bs => if nocaseStepG a b then nocaseLoop as bs else false
   | [], [] => true
   | _, _ => false
 
 def equalsNocase (s t : List UInt8) : Option Bool :=
-  match enumAll (mem s), enumAll (mem t) with
+  match enumRaw (mem s), enumRaw (mem t) with
   | some a, some b => some (nocaseLoop a b)
   | _, _ => none
 
